@@ -287,6 +287,10 @@ func (s *SimFS) WriteFile(name string, content []byte) error {
 		return &fs.PathError{Op: "open", Path: name, Err: syscall.EISDIR}
 	}
 	if d := path.Dir(name); d != "." && !s.isDir(d) {
+		if s.underFile(name) {
+			s.rec("write", name, len(content), "ENOTDIR")
+			return &fs.PathError{Op: "open", Path: name, Err: syscall.ENOTDIR}
+		}
 		s.rec("write", name, len(content), "ENOENT")
 		return &fs.PathError{Op: "open", Path: name, Err: fs.ErrNotExist}
 	}
@@ -355,7 +359,15 @@ func (s *SimFS) Stat(name string) (os.FileInfo, error) {
 
 func (s *SimFS) DeleteFile(name string) error {
 	s.enter("delete")
+	if path.IsAbs(name) {
+		s.rec("delete", name, 0, "abs")
+		return fmt.Errorf("filesystem: '%s' is an absolute path", name)
+	}
 	if _, ok := s.files[name]; !ok {
+		if s.underFile(name) {
+			s.rec("delete", name, 0, "ENOTDIR")
+			return &fs.PathError{Op: "remove", Path: name, Err: syscall.ENOTDIR}
+		}
 		s.rec("delete", name, 0, "ENOENT")
 		return &fs.PathError{Op: "remove", Path: name, Err: fs.ErrNotExist}
 	}
@@ -375,7 +387,20 @@ func (s *SimFS) isDir(p string) bool {
 	return p == "." || s.dirs[p]
 }
 
+// underFile: some proper prefix of the path names a regular file (the kernel answers ENOTDIR).
+func (s *SimFS) underFile(name string) bool {
+	for d := path.Dir(name); d != "." && d != "/" && d != ""; d = path.Dir(d) {
+		if _, ok := s.files[d]; ok {
+			return true
+		}
+	}
+	return false
+}
+
 func (s *SimFS) statNoFault(name string) (fs.FileInfo, error) {
+	if s.underFile(name) {
+		return nil, &fs.PathError{Op: "stat", Path: name, Err: syscall.ENOTDIR}
+	}
 	if s.isDir(name) {
 		return simInfo{name: path.Base(name), dir: true}, nil
 	}
@@ -406,6 +431,10 @@ func (v simView) Open(name string) (fs.File, error) {
 	}
 	sf, ok := s.files[name]
 	if !ok {
+		if s.underFile(name) {
+			s.rec("open", name, 0, "ENOTDIR")
+			return nil, &fs.PathError{Op: "open", Path: name, Err: syscall.ENOTDIR}
+		}
 		s.rec("open", name, 0, "ENOENT")
 		return nil, &fs.PathError{Op: "open", Path: name, Err: fs.ErrNotExist}
 	}
@@ -448,6 +477,10 @@ func (v simView) ReadDir(name string) ([]fs.DirEntry, error) {
 		return nil, &fs.PathError{Op: "readdir", Path: name, Err: syscall.EIO}
 	}
 	if !s.isDir(name) {
+		if _, isFile := s.files[name]; !isFile && !s.underFile(name) {
+			s.rec("readdir", name, 0, "ENOENT")
+			return nil, &fs.PathError{Op: "open", Path: name, Err: fs.ErrNotExist}
+		}
 		s.rec("readdir", name, 0, "ENOTDIR")
 		return nil, &fs.PathError{Op: "readdir", Path: name, Err: errors.New("not a directory")}
 	}
